@@ -10,6 +10,7 @@
  */
 #include "vtrace.h"
 #include <half.h>
+#include <fenv.h>
 
 #ifdef __cplusplus
 using IMATH_INTERNAL_NAMESPACE::half;
@@ -61,6 +62,10 @@ int main (int argc, char** argv)
     const char* cfg = argv[1];
     int k0 = atoi (argv[2]), k1 = atoi (argv[3]);
     const char* nanmode = argc > 4 ? argv[4] : "sw";
+#ifdef SWEEP_FE_UPWARD
+    /* the conversions are specified as round-to-nearest-even whatever the thread's current rounding direction is */
+    fesetround (FE_UPWARD);
+#endif
     FILE* o = stdout;
     fprintf (o, "{\"e\":\"cfg\",\"name\":\"%s\",\"lang\":\"%s\",\"nanmode\":\"%s\"}\n", cfg, LANG, nanmode);
     if (k0 < 0)
